@@ -179,16 +179,23 @@ def run_case(inp):
     tin = temps if T > 1 else temps[0]
     via = inp["via"]
     ms = (2.0, 2.0, 2.0)
+    mask = None
+    if inp.get("mask") == "slab":
+        # not invariant under the searched rotations: every candidate needs the mask of ITS rotation
+        mask = np.zeros((n, n, n), dtype=np.float32)
+        mask[:, max(0, int(c) - 2):int(c) + 3, 1:n - 1] = 1.0
+        mask = ndi.gaussian_filter(mask, 0.6).astype(np.float32)
     with dask.config.set(scheduler="synchronous"):
         if via == "model":
-            m = model_cls(tin, **kw)
+            m = model_cls(tin, mask, **kw)
             r = m.align(sub, ms)
             qi = _rot_index(m, r.quat)
             if qi != k:
                 V("rotation", f"reported rotation index {qi}, expected {k} (T={T},K={K},j={j})")
             if K == 1 and int(r.label) != j:
                 V("label", f"model label {int(r.label)} != {j}")
-            if np.abs(np.asarray(r.shift) - d).max() > 0.3:
+            # (a mask that cuts through the displaced particle biases the shift: C04's subject, not C06's)
+            if mask is None and np.abs(np.asarray(r.shift) - d).max() > 0.3:
                 V("shift", f"shift {np.asarray(r.shift).tolist()} != {d.tolist()}")
             return viols
         # loader / group paths: embed the sub-volume in a tomogram, molecule at the box centre
@@ -198,15 +205,15 @@ def run_case(inp):
         mole = Molecules(np.array([[4 + c] * 3]), features={"g": [0]})
         ld = SubtomogramLoader(tomo, mole, order=1, output_shape=(n, n, n))
         if via == "loader":
-            out = ld.align_multi_templates(temps, alignment_model=model_cls, max_shifts=2.0, **kw)
+            out = ld.align_multi_templates(temps, mask=mask, alignment_model=model_cls, max_shifts=2.0, **kw)
         elif via == "align_stack":
             if T == 1:
-                out = ld.align(temps[0], alignment_model=model_cls, max_shifts=2.0, **kw)
+                out = ld.align(temps[0], mask=mask, alignment_model=model_cls, max_shifts=2.0, **kw)
             else:
-                out = ld.align(np.stack(temps, axis=0), alignment_model=model_cls, max_shifts=2.0, **kw)
+                out = ld.align(np.stack(temps, axis=0), mask=mask, alignment_model=model_cls, max_shifts=2.0, **kw)
         else:
             tm = temps if via == "group_list" else {0: temps}
-            out = list(ld.groupby("g").align_multi_templates(tm, alignment_model=model_cls,
+            out = list(ld.groupby("g").align_multi_templates(tm, mask=mask, alignment_model=model_cls,
                                                              max_shifts=2.0, **kw))[0][1]
         f = out.molecules.features
         if "labels" in f.columns:
@@ -293,7 +300,7 @@ def oracle(rng, thorough, deep=False, hints=None):
                     mdl = ["ZNCC", "NCC"][int(rng.integers(0, 2))] if via == "model" else "ZNCC"
                     sh = [int(x) for x in rng.integers(-1, 2, size=3)]
                     cases.append(dict(T=T, K=K, j=j, k=k, n=int(rng.choice([10, 11])), shift=sh,
-                                      model=mdl, via=via))
+                                      model=mdl, via=via, mask="slab" if (len(cases) % 2 == 0 and T > 1 and K > 1) else None))
     viols = []
     stats = {"by_via": {}, "samples": [{"oracle_case": c} for c in cases[:2]]}
     for inp in cases:
